@@ -56,7 +56,7 @@ def handle : List String → String
   | ["tree", text] =>
     match parseLetters text.toList with
     | some t => s!"ok {showTree t} depth={t.depth} leaves={t.leaves}"
-    | none => "err"
+    | none => "err refused"
   | ["counted.witness", hex] =>
     match fromHex? hex with
     | none => "bad-op"
@@ -64,7 +64,7 @@ def handle : List String → String
       match counted Gen.Limits.MAX_WITNESS_STACK_ITEMS varBytesStep b with
       | .ok (xs, rest) => s!"ok {xs.length} {b.length - rest.length}"
       | .error .tooMany => "err toomany"
-      | .error _ => "err"
+      | .error _ => "err refused"
   | ["pos.script", hex] =>
     match fromHex? hex with
     | none => "bad-op"
